@@ -242,7 +242,7 @@ def validate_diag(d, p, scripts, prop, tag):
         # locate the line: the last state printed has l = index of the next line
         import re
         ls = re.findall(r"/\\ l = (\d+)", r["out"])
-        bads = re.findall(r"/\\ bad = (\{.*\})", r["out"])
+        bads = [core.last_var(r["out"], "bad")]
         line_no = int(ls[-1]) - 1  # 1-based index of the offending line
         acc = 0
         for i, s in enumerate(pending):
